@@ -86,15 +86,17 @@ def check_case(acc, src, mode, origin):
         acc.violation("accepted-what-cpython-rejects", case, {"cpython": f"{val.msg} ({val.lineno}:{val.offset})"})
 
 
-_ZERO_OR = re.compile(r"(?<![\w.])0or\b")
+_NUM_KW = re.compile(r"(?<![\w.])((?:0[xX][0-9a-fA-F_]+|0[bB][01_]+|0[oO][0-7_]+|[0-9][0-9_]*\.?[0-9_]*(?:[eE][-+]?[0-9_]+)?[jJ]?|\.[0-9][0-9_]*(?:[eE][-+]?[0-9_]+)?[jJ]?))(or|from|as)\b")
 
 
 def _f02b_trigger(src, mode, val):
-    """F02b: CPython reads `0or` as the start of an octal literal (`0o`) and rejects it; here it is NUMBER 0 + keyword `or`.
-    Attribution: that message, that spelling, and the counterfactual - with a blank between `0` and `or` CPython accepts the text"""
-    if "invalid octal literal" not in str(val.msg) or not _ZERO_OR.search(src):
+    """F02b: a number glued to a keyword that CPython's end-of-number check does not allow there: `0or` (read as the start of an octal
+    literal), `1from`, `1as` (only and/else/for/if/in/is/not/or may follow a number directly). Here the number pattern ends at the digits
+    and the keyword is a NAME. Attribution: CPython's message is about the literal, the spelling is present, and the counterfactual - with a
+    blank between number and keyword CPython accepts the text"""
+    if not re.search(r"invalid (octal|decimal|hexadecimal|binary|imaginary) literal", str(val.msg)) or not _NUM_KW.search(src):
         return False
-    return base.cpython(_ZERO_OR.sub("0 or", src), mode)[0] == "tree"
+    return base.cpython(_NUM_KW.sub(r"\1 \2", src), mode)[0] == "tree"
 
 
 def _f08a_trigger(src):
@@ -203,6 +205,9 @@ FENCE_FAMILIES += [
     "x = f'{'\n", "x = f'}'\n", "x = f'{}'\n", "x = f'{a'\n", "x = f'{a!}'\n", "x = f'{a!x}'\n", "x = f'{!r}'\n", "x = f'{a:{}}'\n", "x = f'{a b}'\n", "x = f'{a}}'\n", "x = f'{{a}'\n",
     "x = f'{a!r !s}'\n", "x = f'{a:>{'\n", "x = f'{a=!}'\n", "x = f'{=}'\n", "x = f'{a = = }'\n", "x = f'{lambda x: 1}'\n", "x = f'{a:{b:{c:{d}}}}'\n", "x = f'{a;b}'\n", "x = f'{a #}'\n",
     "x = f'{*a}'\n", "x = f'{**a}'\n", "x = f'{a:=1}'\n" if False else "x = f'{:}'\n", "x = f'{yield}' y\n", "x = f'a' b\n", "x = f'{a}' 1\n", "x = f'{a}'f\n", "x = f'{a' '}'\n", "x = f'{\n}'\n", "x = f'{a\n}'\n",
+    # literal text that spells a keyword or operator; an escaped backslash before the line end; the closing quote inside an open format spec
+    "f'{lambda:None}'\n", "f'{lambda:...}'\n", "f'{lambda:-1}'\n", "f'{a if b:else}'\n", "f'{a:)}' )\n", "x = f'\\\\\n'\n", "x = '\\\\\n'\n", "x = b'a\\\\\nb'\n", "f'''{a:'''\n}'''\n",
+    'f"""{a:>{w}"""\n}"""\n', "f'{a:'\n}'\n",
     "x = fb'a'\n", "x = bf'a'\n", "x = fu'a'\n", "x = uf'a'\n", "x = ff'a'\n", "x = rfr'a'\n", "x = ub'a'\n", "x = ur'a'\n", "x = bu'a'\n",
 ]
 FENCE_FAMILIES = [s for s in FENCE_FAMILIES if s]
@@ -232,6 +237,12 @@ def layout_cases():
         for k in GLUE_KEYWORDS:
             yield f"x = {n}{k} 2\n"
             yield f"x = [1 if {n}{k} 0 else 3]\n"
+        # keywords that can follow an expression in their own statements
+        yield f"raise {n}from y\n"
+        yield f"with {n}as x: pass\n"
+        yield f"import a.b; x = [i for i in {n}for j in y]\n"
+        yield f"from m import ({n}as z)\n"
+        yield f"try:\n    pass\nexcept E({n})as e:\n    pass\n"
 
 
 def run_shard(shard):
